@@ -68,6 +68,9 @@ class Engine:
         self.stats["branch_queries"] += 1
         r = self.solver.check(*extra)
         self.stats["solver_s"] += time.time() - t
+        if _DEBUG and time.time() - t > 1.5:
+            import sys as _s
+            print(f"slow branch query: {r} {time.time() - t:.1f}s", file=_s.stderr, flush=True)
         return r
 
     def assume(self, expr):
@@ -205,6 +208,9 @@ class Engine:
         self.stats["claim_queries"] += 1
         r = s.check()
         self.stats["solver_s"] += time.time() - t
+        if _DEBUG and time.time() - t > 3:
+            import sys as _s
+            print(f"slow claim {label!r}: {r} {time.time() - t:.1f}s", file=_s.stderr, flush=True)
         if r == z3.unsat:
             self.stats["claims_unsat"] += 1
             rec.claims.append((label, "unsat", None))
@@ -715,11 +721,44 @@ def ite(c, a, b):
         if isinstance(a, int) and isinstance(b, int) and a == b:
             return a
         a, b = SInt.lift(a), SInt.lift(b)
-        (l1, h1), (l2, h2) = a.bounds(), b.bounds()
-        if l1 is None or l2 is None:
-            return SInt.var(z3.If(c.e, a.z(), b.z()))
-        return SInt.var(z3.If(c.e, a.z(), b.z()), min(l1, l2), max(h1, h2))
+        # structure-preserving: group terms by coefficient so that mixed-radix digit forms
+        # (3600H+60M+S, 146097c+36524b+...) keep their radix structure through the ite
+        ga, gb = _by_coeff(a), _by_coeff(b)
+        if len(ga) > 1 or len(gb) > 1:
+            out = 0
+            for k in sorted(set(ga) | set(gb), key=lambda k: (k == 0, -abs(k))):
+                xa, xb = ga.get(k, 0), gb.get(k, 0)
+                if k == 0:
+                    out = out + _ite1(c, xa, xb)
+                else:
+                    out = out + _ite1(c, xa, xb) * k
+            return out
+        return _ite1(c, a, b)
     return a if c else b
+
+
+def _by_coeff(x):
+    """{coefficient: SInt sum of its atoms}; the constant goes under key 0"""
+    g = {}
+    for i, (v, k) in x.t.items():
+        d = g.setdefault(k, {})
+        d[i] = (v, 1)
+    out = {k: SInt(d, 0) for k, d in g.items()}
+    if x.c:
+        out[0] = x.c
+    return out
+
+
+def _ite1(c, a, b):
+    if isinstance(a, int) and isinstance(b, int) and a == b:
+        return a
+    a, b = SInt.lift(a), SInt.lift(b)
+    if a.c == b.c and len(a.t) == len(b.t) and all(i in b.t and b.t[i][1] == k for i, (v, k) in a.t.items()):
+        return _norm(a)
+    (l1, h1), (l2, h2) = a.bounds(), b.bounds()
+    if l1 is None or l2 is None:
+        return SInt.var(z3.If(c.e, a.z(), b.z()))
+    return SInt.var(z3.If(c.e, a.z(), b.z()), min(l1, l2), max(h1, h2))
 
 
 def table(idx, tbl, lo=0):
